@@ -388,3 +388,62 @@ package service
 //@ loop IterateExpiredRequestBatch.0 invariant unvisited_contexts_untouched: forall id Bytes :: {raw[KCtx(id)]} {raw[KExpH(id)]} {raw[KNewH(id)]}
 //@      (iterator_snap[KExpQ(ctxHeight(ctx), id)] != bnil && itIdx(iterator_snap, iterator_pfx, KExpQ(ctxHeight(ctx), id)) >= iterator_pos) ==>
 //@      raw[KCtx(id)] == iterator_snap[KCtx(id)] && raw[KExpH(id)] == iterator_snap[KExpH(id)] && raw[KNewH(id)] == iterator_snap[KNewH(id)]
+
+// ---------------------------------------------------------------- genesis export / import (C19, second half)
+//@ func ExportGenesis
+//@ props C19
+//@ loop IterateServiceDefinitions.0 invariant pos_in_range: 0 <= iterator_pos && iterator_pos <= itCount(iterator_snap, iterator_pfx)
+//@ loop IterateServiceDefinitions.0 invariant snapshot: iterator_snap == raw && iterator_pfx == PAllDef
+//@ loop IterateServiceDefinitions.0 invariant listed_so_far: outer_definitions == defsIt(iterator_snap, iterator_pfx, iterator_pos)
+//@ loop IterateServiceBindings.0 invariant pos_in_range: 0 <= iterator_pos && iterator_pos <= itCount(iterator_snap, iterator_pfx)
+//@ loop IterateServiceBindings.0 invariant snapshot: iterator_snap == raw && iterator_pfx == PAllBind
+//@ loop IterateServiceBindings.0 invariant listed_so_far: outer_bindings == bindsIt(iterator_snap, iterator_pfx, iterator_pos) && outer_definitions == defsIt(raw, PAllDef, itCount(raw, PAllDef))
+//@ loop IterateWithdrawAddresses.0 invariant pos_in_range: 0 <= iterator_pos && iterator_pos <= itCount(iterator_snap, iterator_pfx)
+//@ loop IterateWithdrawAddresses.0 invariant snapshot: iterator_snap == raw && iterator_pfx == PAllWAddr
+//@ loop IterateWithdrawAddresses.0 invariant lists_kept: outer_bindings == bindsIt(raw, PAllBind, itCount(raw, PAllBind)) && outer_definitions == defsIt(raw, PAllDef, itCount(raw, PAllDef))
+//@ loop IterateWithdrawAddresses.0 invariant visited_owners_exported: forall o Bytes :: {raw[KWAddr(o)]} raw[KWAddr(o)] != bnil && itIdx(iterator_snap, iterator_pfx, KWAddr(o)) < iterator_pos ==>
+//@      mapHas_Map_Str_Bytes(outer_withdrawAddresses, bech32(o)) && mapGet_Map_Str_Bytes(outer_withdrawAddresses, bech32(o)) == raw[KWAddr(o)]
+//@ loop IterateRequestContexts.0 invariant pos_in_range: 0 <= iterator_pos && iterator_pos <= itCount(iterator_snap, iterator_pfx)
+//@ loop IterateRequestContexts.0 invariant snapshot: iterator_snap == raw && iterator_pfx == PAllCtx
+//@ loop IterateRequestContexts.0 invariant lists_kept: outer_bindings == bindsIt(raw, PAllBind, itCount(raw, PAllBind)) && outer_definitions == defsIt(raw, PAllDef, itCount(raw, PAllDef))
+//@ loop IterateRequestContexts.0 invariant withdraw_addresses_kept: forall o Bytes :: {raw[KWAddr(o)]} raw[KWAddr(o)] != bnil ==>
+//@      mapHas_Map_Str_Bytes(outer_withdrawAddresses, bech32(o)) && mapGet_Map_Str_Bytes(outer_withdrawAddresses, bech32(o)) == raw[KWAddr(o)]
+//@ loop IterateRequestContexts.0 invariant visited_contexts_exported: forall id Bytes :: {raw[KCtx(id)]} raw[KCtx(id)] != bnil && itIdx(iterator_snap, iterator_pfx, KCtx(id)) < iterator_pos ==>
+//@      mapHas_Map_Str_RequestContext(outer_requestContexts, hexstr(id)) && mapGet_Map_Str_RequestContext(outer_requestContexts, hexstr(id)) == ctxOf(raw, id)
+//@ ensures [C19] exports_the_stored_parameters: result.Params == params
+//@ ensures [C19] exports_every_definition_in_key_order: result.Definitions == defsIt(raw, PAllDef, itCount(raw, PAllDef))
+//@ ensures [C19] exports_every_binding_in_key_order: result.Bindings == bindsIt(raw, PAllBind, itCount(raw, PAllBind))
+//@ ensures [C19] exports_every_withdraw_address_under_the_bech32_form_of_its_owner: forall o Bytes :: {raw[KWAddr(o)]} raw[KWAddr(o)] != bnil ==>
+//@      mapHas_Map_Str_Bytes(result.WithdrawAddresses, bech32(o)) && mapGet_Map_Str_Bytes(result.WithdrawAddresses, bech32(o)) == raw[KWAddr(o)]
+//@ ensures [C19] exports_every_context_under_the_hex_form_of_its_id: forall id Bytes :: {raw[KCtx(id)]} raw[KCtx(id)] != bnil ==>
+//@      mapHas_Map_Str_RequestContext(result.RequestContexts, hexstr(id)) && mapGet_Map_Str_RequestContext(result.RequestContexts, hexstr(id)) == ctxOf(raw, id)
+
+//@ func InitGenesis
+//@ props C19
+//@ modifies raw
+//@ maypanic
+//@ requires as_exported_no_nil_withdraw_address: forall s Str :: {mapHas_Map_Str_Bytes(data.WithdrawAddresses, s)} mapHas_Map_Str_Bytes(data.WithdrawAddresses, s) ==> mapGet_Map_Str_Bytes(data.WithdrawAddresses, s) != bnil
+//@ loop 0 invariant seen: 0 <= iter && iter <= len(data.Definitions)
+//@ loop 0 invariant definitions_written_so_far: raw == wrDefs(old(raw), data.Definitions, iter)
+//@ loop 1 invariant seen: 0 <= iter && iter <= len(data.Bindings)
+//@ loop 1 invariant bindings_written_so_far: raw == wrBinds(wrDefs(old(raw), data.Definitions, len(data.Definitions)), data.Bindings, iter)
+//@ loop 2 invariant only_withdraw_addresses_written: forall k Key :: {raw[k]} !is_KWAddr(k) ==> raw[k] == wrBinds(wrDefs(old(raw), data.Definitions, len(data.Definitions)), data.Bindings, len(data.Bindings))[k]
+//@ loop 2 invariant visited_written: forall s Str :: {range_visited[s]} range_visited[s] && (forall s2 Str :: {mapHas_Map_Str_Bytes(data.WithdrawAddresses, s2)} mapHas_Map_Str_Bytes(data.WithdrawAddresses, s2) && s2 != s ==> bech32Decode(s2) != bech32Decode(s))
+//@      ==> raw[KWAddr(bech32Decode(s))] == mapGet_Map_Str_Bytes(data.WithdrawAddresses, s)
+//@ loop 2 invariant others_untouched: forall a Bytes :: {raw[KWAddr(a)]} (forall s Str :: {mapHas_Map_Str_Bytes(data.WithdrawAddresses, s)} mapHas_Map_Str_Bytes(data.WithdrawAddresses, s) ==> bech32Decode(s) != a)
+//@      ==> raw[KWAddr(a)] == old(raw)[KWAddr(a)]
+//@ loop 3 invariant only_contexts_written: forall k Key :: {raw[k]} !is_KCtx(k) ==> raw[k] == entry_raw[k]
+//@ loop 3 invariant visited_written: forall s Str :: {range_visited[s]} range_visited[s] && (forall s2 Str :: {mapHas_Map_Str_RequestContext(data.RequestContexts, s2)} mapHas_Map_Str_RequestContext(data.RequestContexts, s2) && s2 != s ==> hexDecode(s2) != hexDecode(s))
+//@      ==> raw[KCtx(hexDecode(s))] == enc_RequestContext(mapGet_Map_Str_RequestContext(data.RequestContexts, s))
+//@ loop 3 invariant others_untouched: forall id Bytes :: {raw[KCtx(id)]} (forall s Str :: {mapHas_Map_Str_RequestContext(data.RequestContexts, s)} mapHas_Map_Str_RequestContext(data.RequestContexts, s) ==> hexDecode(s) != id)
+//@      ==> raw[KCtx(id)] == old(raw)[KCtx(id)]
+//@ ensures [C19] withdraw_addresses_imported: forall s Str :: {mapHas_Map_Str_Bytes(data.WithdrawAddresses, s)} mapHas_Map_Str_Bytes(data.WithdrawAddresses, s) &&
+//@      (forall s2 Str :: {mapHas_Map_Str_Bytes(data.WithdrawAddresses, s2)} mapHas_Map_Str_Bytes(data.WithdrawAddresses, s2) && s2 != s ==> bech32Decode(s2) != bech32Decode(s))
+//@      ==> raw[KWAddr(bech32Decode(s))] == mapGet_Map_Str_Bytes(data.WithdrawAddresses, s)
+//@ ensures [C19] contexts_imported: forall s Str :: {mapHas_Map_Str_RequestContext(data.RequestContexts, s)} mapHas_Map_Str_RequestContext(data.RequestContexts, s) &&
+//@      (forall s2 Str :: {mapHas_Map_Str_RequestContext(data.RequestContexts, s2)} mapHas_Map_Str_RequestContext(data.RequestContexts, s2) && s2 != s ==> hexDecode(s2) != hexDecode(s))
+//@      ==> raw[KCtx(hexDecode(s))] == enc_RequestContext(mapGet_Map_Str_RequestContext(data.RequestContexts, s))
+//@ ensures [C19] nothing_else_written: (forall a Bytes :: {raw[KWAddr(a)]} (forall s Str :: {mapHas_Map_Str_Bytes(data.WithdrawAddresses, s)} mapHas_Map_Str_Bytes(data.WithdrawAddresses, s) ==> bech32Decode(s) != a) ==> raw[KWAddr(a)] == old(raw)[KWAddr(a)]) &&
+//@      (forall id Bytes :: {raw[KCtx(id)]} (forall s Str :: {mapHas_Map_Str_RequestContext(data.RequestContexts, s)} mapHas_Map_Str_RequestContext(data.RequestContexts, s) ==> hexDecode(s) != id) ==> raw[KCtx(id)] == old(raw)[KCtx(id)])
+//@ ensures [C19] definitions_bindings_price_terms_and_indexes_imported: forall k Key :: {raw[k]} !is_KWAddr(k) && !is_KCtx(k) ==>
+//@      raw[k] == wrBinds(wrDefs(old(raw), data.Definitions, len(data.Definitions)), data.Bindings, len(data.Bindings))[k]
